@@ -150,8 +150,16 @@ void a_complex_div_(a_complex *ctx, a_complex z)
 void a_complex_inv_(a_complex *ctx)
 {
     a_real const inv = 1 / a_complex_abs(*ctx);
-    ctx->real = +inv * ctx->real * inv;
-    ctx->imag = -inv * ctx->imag * inv;
+    if (inv != 0)
+    {
+        ctx->real = +inv * ctx->real * inv;
+        ctx->imag = -inv * ctx->imag * inv;
+    }
+    else /* the reciprocal of an infinite number is zero, not 0 * inf */
+    {
+        ctx->real = 0;
+        ctx->imag = 0;
+    }
 }
 
 #if A_PREREQ_GNUC(2, 95) || __has_warning("-Wimplicit-function-declaration")
